@@ -109,7 +109,7 @@ def t11(case):
 
 def t11_witness(t, v, obj):
     """is the T11 mechanism actually at work on this value: a DEFAULT member of constructed type whose comparison with
-    the declared default by pyasn1's own `==` raises, or says "equal" although the abstract contents differ?"""
+    the declared default by pyasn1's own `==` raises?"""
     b = gen.base_of(t)
     if v[0] == 'absent' or obj is None:
         return False
@@ -124,11 +124,11 @@ def t11_witness(t, v, obj):
                 if kind == 'd' and gen.base_of(ft)[0] in ('seq', 'set', 'seqof', 'setof', 'choice'):
                     d = obj.componentType[i].asn1Object
                     try:
-                        eq = bool(comp == d)
+                        bool(comp == d)
                     except Exception:  # noqa
                         return True
-                    if eq and not gen.val_equiv(ft, fv, dflt):
-                        return True
+                    # a comparison that answers "equal" for different contents is NOT part of the recorded
+                    # finding (it was T14, repaired): a member wrongly left out is reported as a violation
                 if t11_witness(ft, fv, comp):
                     return True
             return False
